@@ -230,6 +230,7 @@ func init() {
 			{ID: "R15.3", Title: "escape table of string literals equals the documented one", Floor: 1, Run: ruleR153},
 			{ID: "R15.4", Title: "typographic aliases, superscripts and their exclusion sets equal the documented tables", Floor: 3, Run: ruleR154},
 			{ID: "R15.6", Title: "quoted identifiers denote their exact content (no keyword / text operator lookup)", Floor: 1, Run: ruleR156},
+			{ID: "R15.7", Title: "string literals and quoted identifiers are built from runes as written, not from the alias-replacing readers", Floor: 2, Run: ruleR157},
 			{ID: "R03.6", Title: "implicit multiplication bookkeeping only in comfort mode (see C03)", Floor: 3, Run: ruleR036},
 		},
 	})
